@@ -49,6 +49,10 @@ def minMaxUDPPayloadSize : Nat := Wire.minMaxUDPPayloadSize.toNat
 def minActiveConnectionIDLimit : Nat := Wire.minActiveConnectionIDLimit.toNat
 def perspectiveClient : Nat := Protocol.PerspectiveClient.toNat
 def perspectiveServer : Nat := Protocol.PerspectiveServer.toNat
+/-- the bound of the first length guard of `readPreferredAddress` (regenerated) -/
+def preferredAddressMinLen : Nat := Wire.preferredAddressMinLen.toNat
+/-- bytes read at fixed offsets before the connection ID: IPv4, port, IPv6, port, connection ID length -/
+def preferredAddressFixedReads : Nat := 4 + 2 + 16 + 2 + 1
 
 def millisecond : Nat := 1000000
 def microsecond : Nat := 1000
@@ -74,6 +78,7 @@ inductive TErr
   | missingISCID
   | duplicate         -- "received duplicate transport parameter"
   | ticketVersion     -- "unknown transport parameter marshaling version"
+  | panic             -- NOT an error value: a Go run-time panic (slice index out of range)
 deriving Repr, DecidableEq, BEq
 
 def TErr.ofV : VErr → TErr
@@ -150,7 +155,10 @@ def readNumeric (p : Params) (b : Bytes) (id expectedLen : Nat) : Except TErr Pa
 
 /-- `readPreferredAddress(b, expectedLen)` -/
 def readPreferredAddress (b : Bytes) (expectedLen : Nat) : Except TErr PreferredAddress :=
-  if b.length < 4 + 2 + 16 + 2 + 1 then .error .eof
+  if b.length < preferredAddressMinLen then .error .eof
+  -- `b[:4]`, `Uint16(b[4:])`, `b[:16]`, `Uint16(b[16:])`, `b[0]` index 25 bytes: a shorter slice that
+  -- passed the guard panics (index / slice bounds out of range)
+  else if b.length < preferredAddressFixedReads then .error .panic
   else
     let ipv4 := b.take 4
     let port4 := (b.getD 4 0).toNat * 256 + (b.getD 5 0).toNat
